@@ -1,6 +1,9 @@
 """Implementation driver for C10: crash sweep on the real task runner.
 
-stdin : {"scratch": dir, "workers": 16, "cases": [{"launches": [{"mode", "sig", "n"}, ...]}, ...]}
+stdin : {"scratch": dir, "workers": 16, "cases": [{"launches": [{"mode", "sig", "n", "n2", "waiter"}, ...]}, ...]}
+        n2: a second death (SIGKILL at the n2-th executed line, after the first signal)
+        waiter: {"mode", "sig", "n"} | {"mode", "sig", "ext": ms, "after_line": n} - a second job process for the
+        same directory, started while the first is held in its body (see launch_double)
 stdout: last line = JSON list, one entry per case: {"launches": [observation, ...]}
 
 For every case a real job directory is produced by the real submission machinery in GENERATE_ONLY mode
@@ -15,6 +18,7 @@ import os
 import signal
 import sys
 import threading
+import time
 from concurrent.futures import ThreadPoolExecutor
 from pathlib import Path
 
@@ -27,6 +31,11 @@ from experimaestro.connectors.local import LocalConnector  # noqa: E402
 from vpk_c10.tasks import CrashTask  # noqa: E402
 
 PY = sys.executable
+
+import experimaestro.run as _xrun  # noqa: E402
+from vpk_c10.crashrun import try_ranges  # noqa: E402
+
+TRY_RANGES = try_ranges(_xrun.__file__)
 
 
 def generate(scratch, cases):
@@ -68,15 +77,18 @@ def observe(job):
                 lockfree=lockfree, B=text.count("B"), E=text.count("E"), X=text.count("X"))
 
 
-def launch(job, k, l, env):
-    evlog = job["path"] / f"events.{k}.log"
+def start(job, evlog, mode, sig, n, env, n2=0, hold=None):
+    """Starts the generated script under the crash wrapper and writes <name>.pid as CommandLineJob.aio_run does."""
     if evlog.exists():
         evlog.unlink()
     pb = LocalConnector.instance().processbuilder()
     pb.command = [PY, "-W", "ignore", "-m", "vpk_c10.crashrun", str(job["script"]), str(evlog),
-                  l.get("sig") or "NONE", str(l.get("n") or 0)]
+                  sig or "NONE", str(n or 0), str(n2 or 0)]
     e = dict(env)
-    e["VPK_C10_MODE"] = l["mode"]
+    e["VPK_C10_MODE"] = mode
+    e.pop("VPK_C10_HOLD", None)
+    if hold is not None:
+        e["VPK_C10_HOLD"] = str(hold)
     pb.environ = e
     pb.stdout = Redirect.file(job["stdout"])
     pb.stderr = Redirect.file(job["stderr"])
@@ -84,28 +96,132 @@ def launch(job, k, l, env):
     # what CommandLineJob.aio_run does right after starting the process
     with job["pid"].open("w") as fp:
         json.dump(process.tospec(), fp)
+    return process
+
+
+def wait(process, limit=90):
     hung = []
-    timer = threading.Timer(90, lambda: (hung.append(1), os.kill(process.tospec()["pid"], signal.SIGKILL)))
+    timer = threading.Timer(limit, lambda: (hung.append(1), os.kill(process.tospec()["pid"], signal.SIGKILL)))
     timer.start()
     rc = process.wait()
     timer.cancel()
-    pre, post, lines, kill = [], [], [], None
+    return rc, bool(hung)
+
+
+def read_log(evlog):
+    """-> effects before the (first) signal, after it, executed lines, the signal record, the second death,
+    the number of lines executed when the lock was taken"""
+    pre, post, lines, kill, kill2, lock_n = [], [], [], None, None, None
     for line in (evlog.read_text().splitlines() if evlog.exists() else []):
         tag, _, rest = line.partition(" ")
         if tag == "L":
             lines.append(rest.split(" ")[1])
         elif tag == "K":
             f = rest.split(" ")
-            kill = dict(sig=f[0], ctx=f[1], n=int(f[2]), at=f[3])
+            rec = dict(sig=f[0], ctx=f[1], n=int(f[2]), at=f[3])
+            if kill is None:
+                kill = rec
+            else:
+                kill2 = rec
         elif tag == "E":
             (post if kill else pre).append(rest)
+            if rest == "Lock" and lock_n is None:
+                lock_n = len(lines)
+    return pre, post, lines, kill, kill2, lock_n
+
+
+def record(job, evlog, l, rc, hung):
+    pre, post, lines, kill, kill2, lock_n = read_log(evlog)
     out = dict(mode=l["mode"], sig=l.get("sig"), n=l.get("n") or 0, fired=kill is not None,
                ctx=kill["ctx"] if kill else None, at=kill["at"] if kill else None,
-               pre=pre, post=post, rc=rc, nlines=len(lines), obs=observe(job), hung=bool(hung) or rc == 97)
+               killed_again=kill2 is not None, at2=kill2["at"] if kill2 else None,
+               pre=pre, post=post, rc=rc, nlines=len(lines), hung=hung or rc == 97)
     if l.get("ref"):
         out["lines"] = lines
+        out["lock_n"] = lock_n
     if rc not in (0, 1, -9, -15, -2) or os.environ.get("VPK_C10_KEEPERR"):
         out["stderr_tail"] = job["stderr"].read_text()[-1500:] if job["stderr"].is_file() else ""
+    return out
+
+
+def launch(job, k, l, env):
+    if l.get("waiter"):
+        return launch_double(job, k, l, env)
+    evlog = job["path"] / f"events.{k}.log"
+    process = start(job, evlog, l["mode"], l.get("sig"), l.get("n"), env, n2=l.get("n2"))
+    rc, hung = wait(process)
+    out = record(job, evlog, l, rc, hung)
+    out["obs"] = observe(job)
+    return out
+
+
+def wait_for(cond, process, limit):
+    """polls until cond() holds; False when the process ended first or the time is over"""
+    t0 = time.time()
+    while time.time() - t0 < limit:
+        if cond():
+            return True
+        if not process_alive(process):
+            return cond()
+        time.sleep(0.004)
+    return False
+
+
+def process_alive(process):
+    pid = process.tospec()["pid"]
+    try:
+        with open(f"/proc/{pid}/stat") as f:
+            return f.read().rsplit(")", 1)[1].split()[0] != "Z"
+    except OSError:
+        return False
+
+
+def launch_double(job, k, l, env):
+    """Two job processes for one job directory (what two experiments do after a forced double launch).  The first
+    (H) is held in its body; the second (W), whose scheduler rewrites the pid file, receives its signal before it
+    can have the run lock - at its n-th executed line, or from outside while it is blocked in lock.acquire - and
+    dies; the directory is looked at; H is then let go (and may die as well)."""
+    w = l["waiter"]
+    latch = job["path"] / f"latch.{k}"
+    if latch.exists():
+        latch.unlink()
+    evh, evw = job["path"] / f"events.{k}.log", job["path"] / f"events.{k}.w.log"
+    if evw.exists():
+        evw.unlink()
+    ph = start(job, evh, l["mode"], l.get("sig"), l.get("n"), env, n2=l.get("n2"), hold=latch)
+    in_body = wait_for(lambda: evh.exists() and "E BodyBegin" in evh.read_text(), ph, 90)
+    wrec = None
+    if in_body and process_alive(ph):
+        before = observe(job)
+        pw = start(job, evw, w["mode"], None if w.get("ext") is not None else w["sig"], w.get("n"), env)
+        sent = True
+        if w.get("ext") is not None:
+            # W is blocked in lock.acquire (the line that calls it has been reached and no other follows)
+            want = "L %d " % w["after_line"]
+            sent = wait_for(lambda: evw.exists() and any(x.startswith(want) for x in evw.read_text().splitlines()), pw, 60)
+            if sent:
+                time.sleep(w["ext"] / 1000.0)
+                last = [x for x in evw.read_text().splitlines() if x.startswith("L ")][-1].split(" ")
+                ctx = "prop"
+                if last[2].startswith("run:"):
+                    ln = int(last[2].split(":")[1])
+                    ctx = "try" if any(a <= ln <= b for a, b in TRY_RANGES) else "prop"
+                with open(evw, "ab") as fp:
+                    fp.write(("K %s %s %d %s\n" % (w["sig"], ctx, 0, last[2])).encode())
+                try:
+                    os.kill(pw.tospec()["pid"], getattr(signal, "SIG" + w["sig"]))
+                except ProcessLookupError:
+                    pass
+        rcw, hungw = wait(pw, limit=40)
+        wrec = record(job, evw, dict(mode=w["mode"], sig=w["sig"], n=w.get("n")), rcw, False)
+        wrec.update(ext=w.get("ext"), never_died=hungw or not sent, before=before, obs=observe(job),
+                    holder_alive=process_alive(ph))
+    latch.touch()
+    rc, hung = wait(ph)
+    out = record(job, evh, l, rc, hung)
+    out["obs"] = observe(job)
+    out["waiter"] = wrec
+    out["waiter_skipped"] = wrec is None
     return out
 
 
